@@ -241,7 +241,13 @@ func compareFileContent(p1, p2 string) (bool, error) {
 // whether the files are considered the same file, and
 // an error
 func compareStat(ls1, ls2 *types.Stat) (bool, error) {
-	return ls1.Mode == ls2.Mode && ls1.Uid == ls2.Uid && ls1.Gid == ls2.Gid && ls1.Devmajor == ls2.Devmajor && ls1.Devminor == ls2.Devminor && ls1.Linkname == ls2.Linkname, nil
+	m1, m2 := ls1.Mode, ls2.Mode
+	if os.FileMode(m1)&os.ModeSymlink != 0 && os.FileMode(m2)&os.ModeSymlink != 0 {
+		// the permission bits of a symlink cannot be stored (they read back
+		// as 0777 whatever was announced): they are no difference
+		m1, m2 = m1|0777, m2|0777
+	}
+	return m1 == m2 && ls1.Uid == ls2.Uid && ls1.Gid == ls2.Gid && ls1.Devmajor == ls2.Devmajor && ls1.Devminor == ls2.Devminor && ls1.Linkname == ls2.Linkname, nil
 }
 
 func nextPath(ctx context.Context, pathC <-chan *currentPath) (*currentPath, error) {
